@@ -51,6 +51,34 @@ class C05:
         s = self.ctx.index.resolve_expr(summ.module, ann)
         return s.qual if s is not None and s.kind == "class" else None
 
+    def ann_accepts(self, summ: Summary, param: str, want: str) -> Optional[str]:
+        """None when the annotation of `param` names the class `want` (alone or as a member of a Union / `|`), else the
+        text of what it is written for."""
+        ann = summ.annotations.get(param)
+        if ann is None:
+            return "an unannotated parameter"
+        members = []
+
+        def collect(a):
+            if isinstance(a, ast.Subscript) and ast.unparse(a.value).split(".")[-1] in ("Union", "Optional"):
+                sl = a.slice
+                for e in (sl.elts if isinstance(sl, ast.Tuple) else [sl]):
+                    collect(e)
+            elif isinstance(a, ast.BinOp) and isinstance(a.op, ast.BitOr):
+                collect(a.left)
+                collect(a.right)
+            else:
+                members.append(a)
+
+        collect(ann)
+        quals = []
+        for a in members:
+            sy = self.ctx.index.resolve_expr(summ.module, a)
+            quals.append(sy.qual if sy is not None and sy.kind == "class" else ast.unparse(a))
+        if want in quals:
+            return None
+        return ", ".join(q.split(":")[-1] for q in quals) or "?"
+
     # ------------------------------------------------------------------ R05.1 + R05.2
     def check_conversion(self):
         ctx = self.ctx
@@ -234,10 +262,10 @@ class C05:
             fsym, k = rows[c.qual]
             modname, fname = fsym.qual.split(":")
             fs = ctx.summ.of_func(modname, fname)
-            got = self.ann_class(fs, fs.params[0])
-            if got != c.qual:
+            other = self.ann_accepts(fs, fs.params[0], c.qual)
+            if other is not None:
                 ctx.bad("R05.1", file, "_COMPUTE_FEATURES", f"{c.name} -> {fname}",
-                        f"features of {c.name} are computed by {fname}, which is written for {got.split(':')[1] if got else '?'}", k.lineno)
+                        f"features of {c.name} are computed by {fname}, which is written for {other}", k.lineno)
                 continue
             ctx.ok("R05.1", f"{file}:{k.lineno} _COMPUTE_FEATURES", f"{c.name} -> {fname}")
             self.check_feature_fn(c.name, fs)
